@@ -718,7 +718,19 @@ def do_compare(S, op, i):
         if (ra.get("claimed") != rb.get("claimed")) and not f32_ and budget and budget >= 100 \
                 and "claimed" in ra and "claimed" in rb and cls not in ("SqrtLasso",):
             conv, other = (ra, rb) if ra.get("claimed") else (rb, ra)
-            if conv.get("n_iter") is not None and 0 < int(conv["n_iter"]) <= budget // 4 \
+            far = False
+            if other.get("problem") is not None and other.get("wb") is not None \
+                    and other["problem"].pen.convex and other["problem"].pen.kind != "vec":
+                # (convex problems only, and the exhausted replica must be *far* from stationarity -
+                # not hovering around the tolerance, which rounding alone decides)
+                try:
+                    crit_ = (a_args.get("knobs") or a_args).get("ws_strategy", "subdiff")
+                    cv = other["problem"].certificate(other["wb"][0], other["wb"][1],
+                                                      criterion=crit_ if crit_ in ("subdiff", "fixpoint") else "subdiff")
+                    far = bool(cv["coef_part"] > 1e3 * max(other.get("tol") or 0.0, 1e-300))
+                except Exception:
+                    far = False
+            if far and conv.get("n_iter") is not None and 0 < int(conv["n_iter"]) <= budget // 4 \
                     and other.get("n_iter") is not None and int(other["n_iter"]) >= budget:
                 S.probe("storage_convergence_compared")
                 S.add(["C10"], "storage_convergence", (cls, "converges_in_one_storage_only"),
@@ -744,10 +756,12 @@ def do_compare(S, op, i):
         thr = 1e-5 * (1 + abs(Pa)) + 1e3 * tol * (1 + l1)
         S.probe("nonconvex_storage_pairs")
         if np.isfinite(Pa) and np.isfinite(Pb) and abs(Pa - Pb) > thr:
-            S.add(["C10"], "storage_stationary_point", (cls, "different_stationary_point_across_storage"),
-                  dict(P_a=float(Pa), P_b=float(Pb), threshold=float(thr), tol=tol,
-                       max_coef_diff=float(np.max(np.abs(np.asarray(wa) - np.asarray(wb)), initial=0.0))),
-                  dict(feat0, datafit=pr.loss.name, penalty=pr.pen.name, fi=pr.fit_intercept), i)
+            # WITHDRAWN as an oracle (DESIGN section 8, item 23): on correlated designs the
+            # working-set scores of near-duplicate features tie up to rounding, the dense and
+            # the sparse kernels break the tie differently and legitimately end at different
+            # stationary points (4 such pairs in one quick batch at seed 2 on the unchanged
+            # tree).  Kept as a probe.
+            S.probe("nonconvex_pairs_at_different_stationary_points")
         return
     (wa, ba), (wb, bb) = ra["wb"], rb["wb"]
     Pa, Pb = pr.objective(wa, ba), pr.objective(wb, bb)
